@@ -267,6 +267,9 @@ def check_layout(ck, prog):
             # single return of a merged value: look at the assignments to _0
             vals = sorted({canon(strip_casts(c3.prov.rvalue(st["rv"], (b["id"], i)))).replace(" ", "") for b in pd["blocks"] for i, st in enumerate(b["stmts"]) if st["k"] == "assign" and st["dst"]["l"] == 0})
             ok = set(vals) == {"0", "(p2Sub(p1Remp2))"}
+        # the same function without the branch: (align - base % align) % align  (base % align < align, so the difference is in 1..=align)
+        if not ok and set(vals) == {"((p2Sub(p1Remp2))Remp2)"}:
+            ok = True
         ck.ob("C05.8", "padding-formula", ok, fn=pd["path"], detail=f"padding(base, align) must be 0 when base % align == 0 and align - base % align otherwise; results {vals}")
     mx = prog.fns.get(M + "max")
     if ck.anchor("C05.8", "max", mx):
